@@ -469,6 +469,10 @@ def _tokenize(line):
                 brackets += 1
             elif end_char == '}':
                 brackets -= 1
+                if brackets < 0:
+                    # A closing bracket without its opening one can never be
+                    # balanced by what follows.
+                    raise IOError('An opening bracket is missing.')
                 if not brackets:
                     break
             elif end_char in separators:
